@@ -6,9 +6,17 @@ use std::collections::HashSet;
 use std::fmt;
 use std::sync::Arc;
 
+#[cfg(not(excsn_fibre_verif))]
 thread_local! {
   // This thread-local variable holds the set of services currently being resolved
   // on this specific thread. This is the key to detecting circular dependencies.
+  static RESOLVING_STACK: RefCell<HashSet<InjectionKey>> = RefCell::new(HashSet::new());
+}
+
+// Simulation build: one OS thread carries many simulated threads, so "thread-local" has to mean
+// local to the simulated thread.
+#[cfg(excsn_fibre_verif)]
+fibre_verif_rt::sim_thread_local! {
   static RESOLVING_STACK: RefCell<HashSet<InjectionKey>> = RefCell::new(HashSet::new());
 }
 
